@@ -134,6 +134,16 @@ fn start_states(max_addr: u8, max_down: usize, ops: usize, words: &[u32]) -> Res
                     }
                 }
             }
+            // some member is suspected by somebody else and has not refuted yet:
+            // still active, so it keeps its place in the rotation
+            let suspects = v.members.iter().filter(|m| m.state() == State::Suspect).count();
+            if suspects < 2 {
+                for m in v.members.iter().filter(|m| m.state() == State::Alive) {
+                    for (_, _, c) in all_runs(f, &Ev::Apply(vec![Member::new(*m.id(), m.incarnation(), State::Suspect)], false), words) {
+                        succ.push(c);
+                    }
+                }
+            }
             // a Down member is forgotten
             for m in v.members.iter().filter(|m| m.state() == State::Down) {
                 for (_, _, c) in all_runs(f, &Ev::Timer(TimerKey::RemoveDown(*m.id())), words) {
@@ -327,9 +337,9 @@ pub fn c14(tier: &str) -> Report {
     rep.set("per_membership_shape", json!(rows));
     rep.distinct_nontrivial = rep.states;
     rep.exhaustive = skipped == 0;
-    rep.rule = "start states: all histories of <= k operations (join, member down, forget, probe round) under all RNG answers; stable phase: breadth-first search to FIXPOINT over (record order, cursor, rounds-since-pinged per member), one transition = one real probe round, every shuffle outcome a branch".into();
+    rep.rule = "start states: all histories of <= k operations (join, member down, member suspected by others, forget, probe round) under all RNG answers; stable phase: breadth-first search to FIXPOINT over (record order, cursor, rounds-since-pinged per member), one transition = one real probe round, every shuffle outcome a branch".into();
     rep.sample(json!({"stable_run": "3 active + 1 Down record, cursor past the end: shuffle (24 outcomes), ping the first active record, ..."}));
     rep.assume("the choice of the next member depends only on (record order, record states, cursor, RNG): the product state omits probe number and backlog");
-    rep.assume("stable phase = every Ping is answered by the matching Ack, so nobody becomes Suspect/Down");
+    rep.assume("stable phase = every Ping is answered by the matching Ack, so nobody becomes Suspect/Down during it (members that were Suspect at its start stay Suspect: their Ack carries the suspected incarnation)");
     rep
 }
